@@ -50,6 +50,7 @@ type World struct {
 	locSets     map[string][]string
 	typeInvs    map[string][]*typeInvInfo // by typeKey of the pointer's element type
 	scans       []*ScanDecl
+	typeTags    map[string]int // dynamic type tags of heap-allocated struct types
 }
 
 type typeInvInfo struct {
@@ -102,6 +103,7 @@ func newWorld() *World {
 		loopSpecs:   map[string]*Contract{},
 		locSets:     map[string][]string{},
 		typeInvs:    map[string][]*typeInvInfo{},
+		typeTags:    map[string]int{},
 	}
 }
 
@@ -432,4 +434,28 @@ func sortText(s string) string {
 		return "(Array " + sortText(k) + " " + sortText(v) + ")"
 	}
 	return q(s)
+}
+
+// typeTagFact: a non-nil reference of static type *T (T a named struct type
+// of the verified packages) refers to an object that was allocated as a T.
+// typetag is an uninterpreted function of the reference: references are never
+// reused, so an object's tag never changes.
+func (w *World) typeTagFact(v Term, elem types.Type) (Term, bool) {
+	n, ok := types.Unalias(elem).(*types.Named)
+	if !ok {
+		return Term{}, false
+	}
+	if _, ok := n.Underlying().(*types.Struct); !ok {
+		return Term{}, false
+	}
+	if n.Obj().Pkg() == nil || !strings.HasPrefix(n.Obj().Pkg().Path(), "go.uber.org/dig") {
+		return Term{}, false
+	}
+	k := typeKey(n)
+	id, ok := w.typeTags[k]
+	if !ok {
+		id = len(w.typeTags) + 1
+		w.typeTags[k] = id
+	}
+	return mkEq(app("Int", "typetag", v), intLit(int64(id))), true
 }
